@@ -77,7 +77,7 @@ func (engC02) Runs(tier string) int {
 	return 60000
 }
 func (engC02) Rule() string {
-	return "run i < " + fmt.Sprint(enumCount(len(enumAlphabet()), 4)) + " (thorough tier: " + fmt.Sprint(enumCount(len(enumAlphabet()), 5)) + ") is the i-th build script of length <=4 (thorough: <=5) over a 13-letter reduced alphabet (complete enumeration); later runs are seeded swarm scripts of 0-14 (thorough: up to 40) building steps (AddHeaders, AddRowItems, NewRow*/Row.Add/AddRow, AppendNewRow + late Row.Add, AddSeparator, Row.Add on a separator, scrambling AllRows()) with 0-5 (sometimes 9-13) cells. After every step the table is compared with the reference model. A run is non-trivial if it attached at least one row; distinct = distinct model shapes (sequence of row widths/separators, header width, detached count)."
+	return "run i < " + fmt.Sprint(enumCount(len(enumAlphabet()), 4)) + " (thorough tier: " + fmt.Sprint(enumCount(len(enumAlphabet()), 5)) + ") is the i-th build script of length <=4 (thorough: <=5) over a 13-letter reduced alphabet (complete enumeration); later runs are seeded swarm scripts of 0-14 (thorough: up to 40) building steps (AddHeaders, AddRowItems, NewRow*/Row.Add/AddRow, AppendNewRow + late Row.Add, AddSeparator, Row.Add on a separator, scrambling AllRows(); in a quarter of the runs also renders of any format, some aborted by a writer fault, after which the structure must still follow the build history) with 0-5 (sometimes 9-13) cells. After every step the table is compared with the reference model. A run is non-trivial if it attached at least one row; distinct = distinct model shapes (sequence of row widths/separators, header width, detached count)."
 }
 func (engC02) Assumptions() []string {
 	return []string{
@@ -108,7 +108,12 @@ func (engC02) Gen(r *Rng, s *Script, idx int, tier string) {
 	}
 	s.Config["steps"] = n
 	ctr := 0
+	renders := r.Chance(1, 4) // structure must also survive whatever a renderer does
 	for i := 0; i < n; i++ {
+		if renders && r.Chance(1, 5) {
+			s.Steps = append(s.Steps, genRenderStep(r, 10))
+			continue
+		}
 		s.Steps = append(s.Steps, genBuildStep(r, m, 0, &ctr))
 	}
 }
@@ -121,6 +126,14 @@ func (engC02) Exec(s *Script, keepLog bool) *Result {
 		return finish(w, res)
 	}
 	runSteps(w, s.Steps, res, func(i int, st *Step) *Violation {
+		if st.Op == "render" {
+			if ro := w.ApplyRender(st); ro.Panic != nil {
+				return stopRun // C09's
+			}
+			w.probe("render_inside_build_history")
+			return w.CheckC02("render")
+		}
+		w.beginStep()
 		if !w.Do(st) {
 			return nil
 		}
@@ -153,7 +166,7 @@ func (engC09) Rule() string {
 func (engC09) Assumptions() []string {
 	return []string{
 		"declared sizes are bounded (height <= 4, width <= 12): an item declaring a size of billions exhausts memory in any renderer and is not what the statement is about",
-		"properties are not set by these scripts (a non-Alignment value under the alignment key is caller misuse outside the statement)",
+		"only valid renderer settings are put on columns (left/right/centre alignment, boolean skipable); a non-Alignment value under the alignment key is caller misuse outside the statement",
 		"a panic inside a building call is C02's finding; such runs are cut and counted as foreign",
 	}
 }
@@ -195,6 +208,14 @@ func (engC09) Gen(r *Rng, s *Script, idx int, tier string) {
 		for i := 0; i < n; i++ {
 			s.Steps = append(s.Steps, genBuildStep(r, m, level, &ctr))
 		}
+		// valid renderer settings on columns (alignment incl. the column-0 default, skipable)
+		for i := r.Pick([]int{3, 2, 1, 1}); i > 0; i-- {
+			if r.Chance(3, 4) {
+				s.Steps = append(s.Steps, Step{Op: "align", A: r.Intn(6), B: r.Intn(4)})
+			} else {
+				s.Steps = append(s.Steps, Step{Op: "skipable", A: r.Intn(6), B: r.Intn(3)})
+			}
+		}
 	}
 	s.Steps = append(s.Steps, renderStepsAll()...)
 }
@@ -204,7 +225,9 @@ func (engC09) Exec(s *Script, keepLog bool) *Result {
 	res := &Result{}
 	runSteps(w, s.Steps, res, func(i int, st *Step) *Violation {
 		if st.Op != "render" {
-			w.Do(st)
+			if !w.Do(st) {
+				w.doColumnSetting(st)
+			}
 			return nil
 		}
 		spec := specOf(st)
